@@ -12,7 +12,7 @@ Inductive tree :=
 | TInt (z : Z)
 | TStr (s : bytes)                                   (* string, []byte, named string constants *)
 | TList (l : list tree)                              (* any slice (nil and empty are not distinguished) *)
-| TTok (kind raw str : bytes) (pos end_ : Z)         (* *token.Token inside BadNode.Tokens *)
+| TTok (kind raw str : bytes) (pos end_ : Z) (sep : bool)   (* *token.Token inside BadNode.Tokens; sep: Space or Comments non-empty *)
 | TNode (ty : string) (fields : list tree).          (* pointer to a node struct; fields in declaration order *)
 
 Inductive fkind :=
@@ -42,7 +42,7 @@ Section TreeInd.
   Hypothesis Hint : forall z, P (TInt z).
   Hypothesis Hstr : forall s, P (TStr s).
   Hypothesis Hlist : forall l, Forall P l -> P (TList l).
-  Hypothesis Htok : forall k r s p e, P (TTok k r s p e).
+  Hypothesis Htok : forall k r s p e b, P (TTok k r s p e b).
   Hypothesis Hnode : forall ty fs, Forall P fs -> P (TNode ty fs).
 
   Fixpoint tree_ind' (t : tree) : P t :=
@@ -54,7 +54,7 @@ Section TreeInd.
     | TStr s => Hstr s
     | TList l => Hlist l ((fix go (l : list tree) : Forall P l :=
                              match l with [] => Forall_nil _ | x :: r => Forall_cons _ (tree_ind' x) (go r) end) l)
-    | TTok k r s p e => Htok k r s p e
+    | TTok k r s p e b => Htok k r s p e b
     | TNode ty fs => Hnode ty fs ((fix go (l : list tree) : Forall P l :=
                              match l with [] => Forall_nil _ | x :: r => Forall_cons _ (tree_ind' x) (go r) end) fs)
     end.
@@ -85,7 +85,7 @@ Definition wt_field (ifs : ifaces_t) (rec : tree -> bool) (k : fkind) (f : tree)
   | KBool, TBool _ => true
   | KInt, TInt _ => true
   | KStr, TStr _ => true
-  | KToks, TList l => forallb (fun x => match x with TTok _ _ _ _ _ => true | _ => false end) l
+  | KToks, TList l => forallb (fun x => match x with TTok _ _ _ _ _ _ => true | _ => false end) l
   | KNode _ _, TNil => true
   | KNode tg i, TNode ty' _ => conforms ifs tg i ty' && rec f
   | KNodes tg i, TList l => forallb (fun x => match x with TNode ty' _ => conforms ifs tg i ty' && rec x | _ => false end) l
